@@ -233,7 +233,7 @@ def run(chk):
         e = tr["ev"][l - 1]
         return "%s %s w=%s h=%s %s" % (e[0], ",".join(clauses), tr["w"], tr["h"], e[1:4])
 
-    chk.validate("GeometryTrace", "GeometryTrace.cfg", traces, key_of=key_of, batch=2500)
+    chk.validate("GeometryTrace", "GeometryTrace.cfg", traces, key_of=key_of, batch=chk.pick(2500, 500), heap=chk.pick("6g", "10g"))
 
 
 def selftest(chk):
